@@ -9,24 +9,24 @@ runs of the same task table (same `calcRes` oracle) and selection agree on every
 acyclicity hypothesis: a run that ends normally (`halt = none`) has derived every outcome it reports. -/
 namespace DoitModel.Run.Dyn
 
-theorem reachable_invDen {inp : RunInput} [NoFailDeliver inp] {s : Sys} (hr : Reach inp s ∨ PReach inp s) : InvDen inp s := by
+theorem reachable_invDen {inp : RunInput} {s : Sys} (hr : Reach inp s ∨ PReach inp s) : InvDen inp s := by
   rcases hr with h | h
   · exact reach_invDen h
   · exact preach_invDen h
 
 /-- a finished run_status is the status of THE derived outcome of the task -/
-theorem status_is_den {inp : RunInput} [NoFailDeliver inp] {s : Sys} (hr : Reach inp s ∨ PReach inp s) (t : Name)
+theorem status_is_den {inp : RunInput} {s : Sys} (hr : Reach inp s ∨ PReach inp s) (t : Name)
     (hf : (stOf s t).finished = true) : ∃ d, DenOf inp t d ∧ d.rs = stOf s t :=
   (reachable_invDen hr).fin t hf
 
 /-- a terminal report (success / up-to-date / ignored / failure of kind k) is THE derived outcome of the task -/
-theorem report_is_den {inp : RunInput} [NoFailDeliver inp] {s : Sys} (hr : Reach inp s ∨ PReach inp s) (t : Name)
+theorem report_is_den {inp : RunInput} {s : Sys} (hr : Reach inp s ∨ PReach inp s) (t : Name)
     (d : Den) (h : ∃ e ∈ s.events, Ev.den? t e = some d) : DenOf inp t d := by
   obtain ⟨e, he, hd⟩ := h
   exact (reachable_invDen hr).den.rep e he t d hd
 
 /-- the same, on the observable trace as the monitors read it -/
-theorem reportOf_is_den {inp : RunInput} [NoFailDeliver inp] {s : Sys} (hr : Reach inp s ∨ PReach inp s) (t : Name)
+theorem reportOf_is_den {inp : RunInput} {s : Sys} (hr : Reach inp s ∨ PReach inp s) (t : Name)
     (d : Den) (h : reportOf (trace inp s) t = some d) : DenOf inp t d := by
   unfold reportOf at h
   obtain ⟨e, he, hd⟩ := List.exists_of_findSome?_eq_some h
@@ -35,19 +35,19 @@ theorem reportOf_is_den {inp : RunInput} [NoFailDeliver inp] {s : Sys} (hr : Rea
   unfold trace at he
   exact (List.mem_filter.mp (List.mem_reverse.mp he)).1
 
-theorem confluent_status {inp1 inp2 : RunInput} [NoFailDeliver inp2] [NoFailDeliver inp1] {s1 s2 : Sys} (hsame : SameTasksC inp1 inp2)
+theorem confluent_status {inp1 inp2 : RunInput} {s1 s2 : Sys} (hsame : SameTasksC inp1 inp2)
     (h1 : Reach inp1 s1 ∨ PReach inp1 s1) (h2 : Reach inp2 s2 ∨ PReach inp2 s2) (t : Name)
     (f1 : (stOf s1 t).finished = true) (f2 : (stOf s2 t).finished = true) : stOf s1 t = stOf s2 t := by
   obtain ⟨d1, a1, b1⟩ := status_is_den h1 t f1
   obtain ⟨d2, a2, b2⟩ := status_is_den h2 t f2
   rw [← b1, ← b2, a1.functional (a2.same hsame.symm)]
 
-theorem confluent_report {inp1 inp2 : RunInput} [NoFailDeliver inp2] [NoFailDeliver inp1] {s1 s2 : Sys} (hsame : SameTasksC inp1 inp2)
+theorem confluent_report {inp1 inp2 : RunInput} {s1 s2 : Sys} (hsame : SameTasksC inp1 inp2)
     (h1 : Reach inp1 s1 ∨ PReach inp1 s1) (h2 : Reach inp2 s2 ∨ PReach inp2 s2) (t : Name) (d1 d2 : Den)
     (r1 : ∃ e ∈ s1.events, Ev.den? t e = some d1) (r2 : ∃ e ∈ s2.events, Ev.den? t e = some d2) : d1 = d2 :=
   (report_is_den h1 t d1 r1).functional ((report_is_den h2 t d2 r2).same hsame.symm)
 
-theorem confluent_reportOf {inp1 inp2 : RunInput} [NoFailDeliver inp2] [NoFailDeliver inp1] {s1 s2 : Sys} (hsame : SameTasksC inp1 inp2)
+theorem confluent_reportOf {inp1 inp2 : RunInput} {s1 s2 : Sys} (hsame : SameTasksC inp1 inp2)
     (h1 : Reach inp1 s1 ∨ PReach inp1 s1) (h2 : Reach inp2 s2 ∨ PReach inp2 s2) (t : Name)
     (r1 : (reportOf (trace inp1 s1) t).isSome = true) (r2 : (reportOf (trace inp2 s2) t).isSome = true) :
     reportOf (trace inp1 s1) t = reportOf (trace inp2 s2) t := by
@@ -57,14 +57,14 @@ theorem confluent_reportOf {inp1 inp2 : RunInput} [NoFailDeliver inp2] [NoFailDe
   have := (reportOf_is_den h1 t d1 e1).functional ((reportOf_is_den h2 t d2 e2).same hsame.symm)
   rw [this]
 
-theorem status_matches_report {inp1 inp2 : RunInput} [NoFailDeliver inp2] [NoFailDeliver inp1] {s1 s2 : Sys} (hsame : SameTasksC inp1 inp2)
+theorem status_matches_report {inp1 inp2 : RunInput} {s1 s2 : Sys} (hsame : SameTasksC inp1 inp2)
     (h1 : Reach inp1 s1 ∨ PReach inp1 s1) (h2 : Reach inp2 s2 ∨ PReach inp2 s2) (t : Name) (d : Den)
     (f1 : (stOf s1 t).finished = true) (r2 : ∃ e ∈ s2.events, Ev.den? t e = some d) : stOf s1 t = d.rs := by
   obtain ⟨d1, a1, b1⟩ := status_is_den h1 t f1
   rw [← b1, a1.functional ((report_is_den h2 t d r2).same hsame.symm)]
 
 /-- two runs of the same task table that report the same set of tasks exit with the same code -/
-theorem confluent_exit {inp1 inp2 : RunInput} [NoFailDeliver inp2] [NoFailDeliver inp1] {s1 s2 : Sys} (hsame : SameTasksC inp1 inp2)
+theorem confluent_exit {inp1 inp2 : RunInput} {s1 s2 : Sys} (hsame : SameTasksC inp1 inp2)
     (h1 : Reach inp1 s1 ∨ PReach inp1 s1) (h2 : Reach inp2 s2 ∨ PReach inp2 s2)
     (hh1 : s1.halt = .none) (hh2 : s2.halt = .none)
     (hset : ∀ t, (∃ d, ∃ e ∈ s1.events, Ev.den? t e = some d) ↔ (∃ d, ∃ e ∈ s2.events, Ev.den? t e = some d)) :
@@ -109,7 +109,7 @@ theorem DenCl_same {a b : RunInput} (h : SameTasksC a b) (hsel : ∀ t, t ∈ a.
   | ofSetup _ hr hd ih => exact DenCl.ofSetup ih (R1_same h hr) (by rw [← h.base.setup]; exact hd)
 
 /-- two complete runs of the same task table and selection (any runner, any schedule) report the same tasks -/
-theorem complete_runs_same_reported {inp1 inp2 : RunInput} [NoFailDeliver inp2] [NoFailDeliver inp1] {s1 s2 : Sys} (hsame : SameTasksC inp1 inp2)
+theorem complete_runs_same_reported {inp1 inp2 : RunInput} {s1 s2 : Sys} (hsame : SameTasksC inp1 inp2)
     (hsel : ∀ t, t ∈ inp1.sel ↔ t ∈ inp2.sel)
     (h1 : Reach inp1 s1 ∨ PReach inp1 s1) (h2 : Reach inp2 s2 ∨ PReach inp2 s2)
     (e1 : s1.rpc = .halted ∧ s1.halt = .none ∧ s1.stop = false)
@@ -118,7 +118,7 @@ theorem complete_runs_same_reported {inp1 inp2 : RunInput} [NoFailDeliver inp2] 
   rw [reported_iff_closure h1 e1.1 e1.2.1 e1.2.2, reported_iff_closure h2 e2.1 e2.2.1 e2.2.2]
   exact ⟨DenCl_same hsame (fun t => (hsel t).mp), DenCl_same hsame.symm (fun t => (hsel t).mpr)⟩
 
-theorem complete_runs_same_exit {inp1 inp2 : RunInput} [NoFailDeliver inp2] [NoFailDeliver inp1] {s1 s2 : Sys} (hsame : SameTasksC inp1 inp2)
+theorem complete_runs_same_exit {inp1 inp2 : RunInput} {s1 s2 : Sys} (hsame : SameTasksC inp1 inp2)
     (hsel : ∀ t, t ∈ inp1.sel ↔ t ∈ inp2.sel)
     (h1 : Reach inp1 s1 ∨ PReach inp1 s1) (h2 : Reach inp2 s2 ∨ PReach inp2 s2)
     (e1 : s1.rpc = .halted ∧ s1.halt = .none ∧ s1.stop = false)
@@ -126,7 +126,7 @@ theorem complete_runs_same_exit {inp1 inp2 : RunInput} [NoFailDeliver inp2] [NoF
   confluent_exit hsame h1 h2 e1.2.1 e2.2.1 (complete_runs_same_reported hsame hsel h1 h2 e1 e2)
 
 /-- per task, the two observable traces carry the same terminal report (or none) -/
-theorem complete_runs_same_reportOf {inp1 inp2 : RunInput} [NoFailDeliver inp2] [NoFailDeliver inp1] {s1 s2 : Sys} (hsame : SameTasksC inp1 inp2)
+theorem complete_runs_same_reportOf {inp1 inp2 : RunInput} {s1 s2 : Sys} (hsame : SameTasksC inp1 inp2)
     (hsel : ∀ t, t ∈ inp1.sel ↔ t ∈ inp2.sel)
     (h1 : Reach inp1 s1 ∨ PReach inp1 s1) (h2 : Reach inp2 s2 ∨ PReach inp2 s2)
     (e1 : s1.rpc = .halted ∧ s1.halt = .none ∧ s1.stop = false)
@@ -146,7 +146,7 @@ theorem complete_runs_same_reportOf {inp1 inp2 : RunInput} [NoFailDeliver inp2] 
 
 /-- the exit code of a complete run is the denotation's: `exitOfDens` over the outcomes of the closure, however the
     closure is enumerated (`L`) and the outcomes are computed (`den`) -/
-theorem complete_exit_is_den {inp : RunInput} [NoFailDeliver inp] {s : Sys} (hr : Reach inp s ∨ PReach inp s)
+theorem complete_exit_is_den {inp : RunInput} {s : Sys} (hr : Reach inp s ∨ PReach inp s)
     (hend : s.rpc = .halted) (hhalt : s.halt = .none) (hstop : s.stop = false)
     (L : List Name) (hL : ∀ t, t ∈ L ↔ DenCl inp t) (den : Name → Den) (hden : ∀ t ∈ L, DenOf inp t (den t)) :
     exitCode s = exitOfDens (L.map den) := by
